@@ -31,8 +31,9 @@ def make_fft_grid(input_grid, q=1, fov=1, shift=0):
     fov = np.ones(input_grid.ndim, dtype='float') * fov
     shift = np.ones(input_grid.ndim, dtype='float') * shift
 
-    # Correct q for a discrete zero padding of the input grid.
-    q = np.round(q * input_grid.dims) / input_grid.dims
+    # Correct q for a discrete zero padding of the input grid. The zero-padded size is
+    # computed once, as an integer, and everything else is derived from it.
+    padded_dims = np.round(q * input_grid.dims)
 
     # Check assumptions
     if not input_grid.is_regular:
@@ -40,8 +41,8 @@ def make_fft_grid(input_grid, q=1, fov=1, shift=0):
     if not input_grid.is_('cartesian'):
         raise ValueError('The input_grid must be cartesian.')
 
-    delta = (2 * np.pi / (input_grid.delta * input_grid.dims)) / q
-    dims = (input_grid.dims * fov * q).astype('int')
+    delta = 2 * np.pi / (input_grid.delta * padded_dims)
+    dims = (padded_dims * fov).astype('int')
     zero = delta * (-dims / 2 + np.mod(dims, 2) * 0.5) + shift
 
     return CartesianGrid(RegularCoords(delta, dims, zero))
